@@ -249,7 +249,7 @@ var classAtoms = []string{`[a-c]`, `[^a-c]`, `[^\n]`, `[\d_]`, `[[:alpha:]]`, `[
 
 var anchorAtoms = []string{`^`, `$`, `\A`, `\z`, `\b`, `\B`, `(?-m:^)`, `(?-m:$)`, `(?m:^)`, `(?m:$)`}
 var dotAtoms = []string{`.`, `(?s:.)`, `(?-s:.)`}
-var repeatOps = []string{`*`, `+`, `?`, `*?`, `+?`, `??`, `{2}`, `{0}`, `{1}`, `{0,1}`, `{2,}`, `{0,}`, `{1,}`, `{1,3}`, `{2,3}?`, `{0,0}`, `{1,1}`, `{0,2}?`, `{3,}?`, `{0,3}`}
+var repeatOps = []string{`{10}`, `{2,10}`, `{0,1}?`, `{3}?`, `*`, `+`, `?`, `*?`, `+?`, `??`, `{2}`, `{0}`, `{1}`, `{0,1}`, `{2,}`, `{0,}`, `{1,}`, `{1,3}`, `{2,3}?`, `{0,0}`, `{1,1}`, `{0,2}?`, `{3,}?`, `{0,3}`}
 var groupOpens = []string{`(`, `(`, `(?:`, `(?:`, `(?P<n>`, `(?P<x1>`, `(?i:`, `(?-i:`, `(?s:`, `(?U:`, `(?m:`, `(?-m:`, `(?is:`, `(?i-s:`}
 var globalFlags = []string{``, ``, ``, ``, `(?i)`, `(?s)`, `(?U)`, `(?m)`, `(?-m)`, `(?is)`, `(?iU)`}
 
@@ -337,7 +337,16 @@ func syntaxQuote(s string) string {
 	return sb.String()
 }
 
+// alternations whose branches share prefixes / suffixes (the parser factors them) or shadow each other
+var factorAlts = []string{"foo|foobar|fo", "abc|abd|ab[ce]", "bar|bar", "a|ab|abc", "abc|ab|a", "xyz|xyZ|xYz", "foo|", "|foo", "(?i:foo)|foo", "Kelvin|kelvin|KELVIN",
+	"straße|strasse", "a*|a+|a?", "[a-c]|[b-d]", "x|y|z", `\d|\w`, "οδος|οδοσ", "ab(c|d)|ab(e|f)", "日本|日本語"}
+
 func (g *PatGen) alt(depth int) string {
+	if g.R.Chance(1, 12) {
+		w := Pick(g.R, factorAlts)
+		g.Hints = append(g.Hints, strings.FieldsFunc(w, func(c rune) bool { return strings.ContainsRune(`|()[]*+?\`, c) })...)
+		return w
+	}
 	n := 1
 	if g.R.Chance(1, 3) {
 		n = g.R.Range(2, 4)
